@@ -45,6 +45,7 @@ fn fmt_nop(_w: &mut dyn std::io::Write, _now: &mut DeferredNow, _r: &Record) -> 
 #[kani::proof]
 #[kani::unwind(6)]
 #[kani::stub(verif_support::reexp::catch_unwind, verif_support::stub_cu)]
+#[kani::stub(crate::parameters::file_spec::TimestampCfg::get_timestamp, crate::parameters::file_spec::verif_harness::cut_get_timestamp)]
 #[kani::stub(crate::writers::file_log_writer::state_handle::StateHandle::write, rec_sh_write)]
 #[kani::stub(crate::writers::file_log_writer::state::start_sync_flusher, cut_start_sync_flusher)]
 fn c13_flw_ceiling() {
